@@ -169,11 +169,28 @@ def e2(cx):
         hit = [nid for nid in nexts if nid in seen and not isfin(g.nodes[nid])]
         fin_nodes = [n for n in g.nodes if isfin(n)]
         used = False
-        for fnode in fin_nodes:
-            v = fnode['value']
+        # the answer may travel through bool locals and through the return value of an inlined helper before it is branched on
+        derived = [fnode['value'] for fnode in fin_nodes]
+        dlocals = set()
+        changed = True
+        while changed:
+            changed = False
             for n in g.nodes:
-                if n['kind'] == 'switch' and mentions(n['discr'], lambda x: x == v):
-                    used = True
+                from_fin = lambda e: mentions(e, lambda x: x in derived or (x[0] == 'local' and x[1] in dlocals))
+                if n['kind'] == 'assign' and n['lhs'][0] == 'local' and n['lhs'][1] not in dlocals and from_fin(n['rhs']):
+                    dlocals.add(n['lhs'][1])
+                    changed = True
+                if n['kind'] in ('call', 'exit') and n.get('dest') and n['dest'][0] == 'local' and n['dest'][1] not in dlocals and n.get('value') in derived:
+                    dlocals.add(n['dest'][1])
+                    changed = True
+                if n['kind'] == 'exit' and n.get('value') and n['value'] not in derived and n.get('body'):
+                    L = (n['ctx'] + ((n['fn'], n['bb'], n['body']),), 0)
+                    if L in dlocals:
+                        derived.append(n['value'])
+                        changed = True
+        for n in g.nodes:
+            if n['kind'] == 'switch' and mentions(n['discr'], lambda x: x in derived or (x[0] == 'local' and x[1] in dlocals)):
+                used = True
         if hit:
             n = g.nodes[hit[0]]
             res.append(Finding(ID, 'E2', label, False,
